@@ -176,6 +176,19 @@ def floor(ctx):
 def replay_input(d):
     i = d['input']
     if 'tokens' in i:
+        if i.get('history'):
+            import selfies as sf
+            s_ = ''.join(i['tokens'])
+            g = sf.split_selfies(s_)
+            next(g, None)
+            del g
+            for a_, b_ in zip(sf.split_selfies(s_), sf.split_selfies(s_ + '[C][O]')):
+                break
+            for f in (lambda: sf.decoder(s_ + '[Zz]' + s_), lambda: sf.selfies_to_encoding(s_ + '[Qq]', {'[nop]': 0})):
+                try:
+                    f()
+                except Exception:
+                    pass
         r = check_tokens(i['tokens'])
         return r is None, repr(r)
     if 'collection' in i:
